@@ -366,11 +366,11 @@ PROPS['C11'] = {
             "of the shared pool applied to all rules, and with long non-ASCII names.",
     'design_ref': '5.11',
     'assumptions': ["PARTIAL: C11_engine proves the property for the ENGINE MODEL on the whole control language (calls with atom functors, !, conjunctions and disjunctions nested to any "
-                    "depth, not, time) without other built-in predicates and function terms: a knowledge base whose rules are each renamed by an injective map of their own gives, "
+                    "depth, not, time) with the built-in predicates fail, nl, = (unify) and the five comparisons, without the other built-in predicates and without function terms: a knowledge base whose rules are each renamed by an injective map of their own gives, "
                     "request by request, the renamed answers with the same output. It follows from C11_machine_with_cut / C11_machine (the reference machines are blind to names: "
                     "every step on kb is the same step on kb' between renamed configurations), the refinement of C01 for both knowledge bases and the determinism of the machine; "
                     "underneath, unification_blind_to_names (unify commutes with a renaming that is injective for each id) and rename_apart_commutes (same ids whatever the names). "
-                    "Programs with other built-in predicates or function terms (print, join, ... write variable names) are decided by the oracle",
+                    "Programs with the other built-in predicates or function terms (print, print_list, join write variable names; append, count, include, exclude, functor are not taken through the renaming) are decided by the oracle",
                     "oracle on the implementation: the four runs give the same answers (variables numbered by first occurrence), in the same order, with the same output "
                     "(names of printed unbound variables masked)"],
 }
@@ -599,7 +599,7 @@ LEVEL_TEXT = {
            'tail markers, the empty list, nesting); there is one map from names to ids such that every variable carries the id of its name, distinct names get distinct '
            'ids, every new id is above the starting counter and at most the new counter; make_query starts from 0. Tied to unifiable.rs / rule.rs / goal.rs by the rename '
            'suite (whole renamed rules compared) and, mid-search, by the engine suite.',
-    'C11': 'PARTIAL proof: for the ENGINE MODEL (and the reference machines its requests are runs of, C01) on programs without built-in predicates other than the cut and without function terms - calls, cut, conjunction and disjunction nested to any depth, not, time - the property is proved outright (C11_engine, C11_machine_with_cut, C11_machine): if each rule of the knowledge base is renamed by an injective map of its own - maps may differ from rule to rule and may reuse the names of the query - then request by request every query gets the same answers in the same order with the same output, the bindings renamed by a map that is the identity on the variables of the query. Underneath: unification commutes with a renaming that is injective for each variable id; renaming apart hands out ids by first occurrence only and commutes with a renaming of names; a renaming commutes with everything the cut does; term comparison is blind to it. '
+    'C11': 'PARTIAL proof: for the ENGINE MODEL (and the reference machines its requests are runs of, C01) on programs whose built-in predicates are the cut, fail, nl, = (unify) and the five comparisons and which have no function terms - calls, conjunction and disjunction nested to any depth, not, time - the property is proved outright (C11_engine, C11_machine_with_cut, C11_machine): if each rule of the knowledge base is renamed by an injective map of its own - maps may differ from rule to rule and may reuse the names of the query - then request by request every query gets the same answers in the same order with the same output, the bindings renamed by a map that is the identity on the variables of the query. Underneath: unification commutes with a renaming that is injective for each variable id; renaming apart hands out ids by first occurrence only and commutes with a renaming of names; a renaming commutes with everything the cut does; term comparison is blind to it. '
            'Programs with other built-in predicates and function terms are decided on the implementation by running every generated program under four alpha-renamings and comparing answers, order and output.',
     'C15': 'Proved in Lean for all element lists: lists built by append/include/exclude hold exactly their elements (a list-valued or empty element stays one element), are '
            'well formed and record their length; the documented constructor yields the given terms, a trailing tail variable as tail, a trailing (possibly empty) list '
